@@ -56,6 +56,13 @@ meta["demonstration_confirmed"] = (rc0 == 0 and rc1 != 0)
 
 # our checks against /repo with the change applied
 results = {}
+# one evaluation at a time touches /repo (the confirmation above runs in the scratch worktree and may overlap)
+LOCK = os.environ.get("REPO_LOCK")
+while LOCK:
+    try:
+        os.mkdir(LOCK); break
+    except FileExistsError:
+        time.sleep(3)
 rc, o = sh(f"git -C /repo apply {patch}")
 if rc != 0:
     print("cannot apply to /repo", o)
@@ -74,7 +81,9 @@ else:
                         os.makedirs(f"{out}/replays", exist_ok=True)
                         shutil.copy(rp, f"{out}/replays/")
     finally:
-        sh("git -C /repo checkout -- .")
+        sh("git -C /repo checkout -- . && git -C /repo clean -fdq packages")
+if LOCK:
+    os.rmdir(LOCK)
 meta["checks_with_change"] = results
 meta["detected_by"] = [p for p, r in results.items() if r["exit"] == 1]
 shutil.copy(patch, f"{out}/patch.diff")
